@@ -727,6 +727,7 @@ class LPData:
         b_eq: Equality RHS vector (m_eq,) or None
         bounds: List of (lb, ub) tuples for each variable
         variables: List of variable names in order
+        c0: Constant term of the objective (objective = c @ x + c0)
     """
 
     c: NDArray[np.floating]
@@ -737,6 +738,7 @@ class LPData:
     b_eq: NDArray[np.floating] | None
     bounds: list[tuple[float | None, float | None]]
     variables: list[str]
+    c0: float = 0.0
 
 
 def extract_all_linear_coefficients(
@@ -1150,6 +1152,7 @@ class LinearProgramExtractor:
             b_eq=b_eq,
             bounds=bounds,
             variables=[v.name for v in variables],
+            c0=extract_constant_term(problem.objective),  # type: ignore[arg-type]
         )
 
 
